@@ -35,6 +35,9 @@ pub struct GenCfg {
   pub multi_checker_share: u32,
   /// Set per case by the builder.
   pub multi_checker: bool,
+  /// Share (out of 10) of cases whose tasks may panic for particular values (such cases get no bottom-up builds).
+  pub task_panic_share: u32,
+  pub panicky: bool,
   /// History contains SetFaults steps (C18).
   pub fault_steps: bool,
   /// History contains ArmPanic steps (C19).
@@ -47,7 +50,7 @@ impl GenCfg {
       max_tasks: 6, max_src: 3, max_gen: 3, max_stmts: 5, max_steps: 8,
       rchks: RCHKS.to_vec(), ochks: OCHKS.to_vec(), wchks: vec![RChk::Exact],
       faulty: false, multi_access: true, bottom_up: false, dyn_targets: true, written_to: true,
-      bottom_up_weight: 3, wide: false, exact_share: 3, fault_steps: false, panic_steps: false, multi_checker_share: 0, multi_checker: false,
+      bottom_up_weight: 3, wide: false, exact_share: 3, fault_steps: false, panic_steps: false, multi_checker_share: 0, multi_checker: false, task_panic_share: 0, panicky: false,
     }
   }
   pub fn thorough() -> Self {
@@ -255,6 +258,7 @@ impl<'c> Builder<'c> {
       if self.cfg.dyn_targets && self.n_src >= 2 { kinds.push(6); }
       if depth < 2 && self.n_src > 0 && (me as usize) + 2 < self.n_tasks { kinds.extend([8, 8]); }
       if self.cfg.multi_access && !px.accessed.is_empty() { kinds.push(7); }
+      if self.cfg.panicky && !px.assigned.is_empty() { kinds.push(9); }
       if kinds.is_empty() { break; }
       match kinds[rd.pick(kinds.len())] {
         0 => {
@@ -336,6 +340,11 @@ impl<'c> Builder<'c> {
             out.push(st);
           }
         }
+        9 => {
+          // Value-dependent task failure: panics only for one particular observed value.
+          let v = self.rvar(rd, px);
+          out.push(Stmt::PanicIf { cond: Expr::Eq(Box::new(Expr::Var(v)), Box::new(Expr::Const(1 + rd.pick(4) as u8))) });
+        }
         8 => {
           // Switch: read a source, then require one of two different tasks depending on what was seen.
           let r = rd.pick(self.n_src as usize) as ResId;
@@ -413,6 +422,7 @@ pub fn build_program_with(g: &Genome, cfg: &GenCfg, force: Option<(usize, u8)>) 
     cfg_local.ochks = vec![OChk::Equals, OChk::IEquals];
   }
   if cfg.multi_checker_share > 0 && lay.chance(cfg.multi_checker_share, 10) { cfg_local.multi_checker = true; }
+  if cfg.task_panic_share > 0 && lay.chance(cfg.task_panic_share, 10) { cfg_local.panicky = true; }
   let cfg = &cfg_local;
   let n_tasks = match force { Some((n, _)) => n, None => g.tasks.len().clamp(1, cfg.max_tasks) };
   let (n_src, n_gen) = match force {
@@ -460,7 +470,7 @@ pub fn build_program_with(g: &Genome, cfg: &GenCfg, force: Option<(usize, u8)>) 
     b.uncond[me] = unc;
     tasks[me] = Script { body, out };
   }
-  Program { tasks, n_src, n_res, writers, init }
+  Program { tasks, n_src, n_res, writers, init, panicky: cfg.panicky }
 }
 
 pub fn build_history(g: &Genome, prog: &Program, cfg: &GenCfg) -> History {
@@ -472,7 +482,7 @@ pub fn build_history(g: &Genome, prog: &Program, cfg: &GenCfg) -> History {
     let mut rd = Rd::new(s);
     let mut kinds: Vec<u8> = vec![0, 0, 0, 1, 1, 1];
     if n_gen > 0 { kinds.push(2); }
-    if cfg.bottom_up && i > 0 { for _ in 0..cfg.bottom_up_weight { kinds.push(3); } }
+    if cfg.bottom_up && !prog.panicky && i > 0 { for _ in 0..cfg.bottom_up_weight { kinds.push(3); } }
     if cfg.fault_steps { kinds.extend([4, 4]); }
     if cfg.panic_steps && i > 0 { kinds.extend([5, 5, 5]); }
     let k = if i == 0 { 0 } else { kinds[rd.pick(kinds.len())] };
@@ -751,7 +761,7 @@ pub fn build_role_case(g: &RoleGenome, cfg: &GenCfg) -> Case {
   }
   let mut init = progs[0].init.clone();
   init.insert(mode_res, 0);
-  let prog = Program { tasks, n_src: n_res + 1, n_res: n_res + 1, writers: vec![], init };
+  let prog = Program { tasks, n_src: n_res + 1, n_res: n_res + 1, writers: vec![], init, panicky: false };
   // History: sessions, mode flips, other changes, bottom-up builds with complete reports.
   let mut steps = vec![];
   let mut pending: Vec<ResId> = vec![];
